@@ -33,7 +33,9 @@ type scenario struct {
 
 const baseA = `identity base; identity other; leaf l { type string; default d; units u; } leaf m { type int8; mandatory true; } container c { leaf x { type string; } } leaf r { type identityref { base base; } } leaf-list ll { type string; min-elements 1; max-elements 5; } list li { key k; leaf k { type string; } } choice ch { default s1; leaf s1 { type string; } case c2 { leaf s2 { type string; } } } rpc op { input { leaf oi { type string; } } }`
 
-func modA() dump.File { return dump.File{Name: "a.yang", Text: `module a { ` + H("a") + ` ` + baseA + ` }`} }
+func modA() dump.File {
+	return dump.File{Name: "a.yang", Text: `module a { ` + H("a") + ` ` + baseA + ` }`}
+}
 
 func imp(n string) string { return `module ` + n + ` { ` + H(n) + ` import a { prefix a; } ` }
 
@@ -142,7 +144,7 @@ type Input struct {
 	Scenario string      `json:"scenario"`
 	Files    []dump.File `json:"files"`
 	A, B     Exec
-	CLI      string `json:"cli,omitempty"` // format, for command-line cases
+	CLI      string `json:"cli,omitempty"`  // format, for command-line cases
 	Kind     string `json:"kind,omitempty"` // "list": the error list of execution A is malformed; else A and B differ
 }
 
@@ -429,7 +431,7 @@ func replayCLI(in Input) (bool, string, string) {
 func init() {
 	core.Register(&core.Prop{
 		ID: "C05", Variant: "order", Shards: shards, Run: run, Replay: replay,
-		Rule: "for every scenario of the conflict library (equal identity names, pairs of deviate kinds in one deviation, two deviating modules, two augmenting modules with equal/different/existing child names, augment chains and missing targets, two revisions of one module, errors spread over modules and lines, definitions spread over submodules, and pairwise combinations): every permutation of load order x every map-iteration order within the deviation bound is one execution of the real (instrumented) library; all executions of a scenario must give the same canonical dump (all exported attributes, positions, identity value sequences) or the same error list; every error list must be ordered by file, line, column without duplicates; the instrumented goyang command must print byte-identical tree and types renderings under every single deviation. states = distinct (scenario, load order, map-order answers); transitions = choice edges",
+		Rule:        "for every scenario of the conflict library (equal identity names, pairs of deviate kinds in one deviation, two deviating modules, two augmenting modules with equal/different/existing child names, augment chains and missing targets, two revisions of one module, errors spread over modules and lines, definitions spread over submodules, and pairwise combinations): every permutation of load order x every map-iteration order within the deviation bound is one execution of the real (instrumented) library; all executions of a scenario must give the same canonical dump (all exported attributes, positions, identity value sequences) or the same error list; every error list must be ordered by file, line, column without duplicates; the instrumented goyang command must print byte-identical tree and types renderings under every single deviation. states = distinct (scenario, load order, map-order answers); transitions = choice edges",
 		Assumptions: []string{"the instrumented copy behaves like the original under canonical order (the repository's suite is run on it each time)", "for maps with more than three keys rotations, adjacent transpositions and the reversal stand for all permutations"},
 	})
 }
